@@ -185,6 +185,13 @@ def ctx_term(T, c):
 def cc_term(T, c):
     return '(CcC %s %d %s)' % (cq_term(T, c['c']), c['kind_u'], B(c['nofb_u']))
 
+def tg_term(T, c):
+    got = '(Err %s)' % errk(c['unmarshal_err']) if c.get('unmarshal_err') else '(Ok %s)' % T.hx(c['unm'])
+    return '(TgC %d %s %s %s %s %s %s %s %s %s %s %s %s)' % (
+        c['kind'], B(c['nofb']), B(c['ismsg']), B(c['isgogo']), T.ostr(c['v']), T.obytes(c['payload']), T.hx(c['prev']),
+        lib_dec(T, c['vinto'], False), lib_dec(T, c['vfresh'], False), lib_dec(T, c['ginto'], True), T.hx(c['gleft']),
+        lib_dec(T, c['gfresh'], True), got)
+
 FAMILIES = {
     # key: (case type, term builder, [(result name, Gallina function, role)], chunk size, what)
     'eq':  ('eq_case', eq_term, [('mis', 'eq_mismatches', 'm'), ('vio', 'eq_violations', 'v'), ('pin', 'eq_pinned_diffs', 'i')], 400,
@@ -208,6 +215,8 @@ FAMILIES = {
             'envelope text: Gallina jenc_env = bytes written by wrapMessageInEnvelope; Gallina jdec_env (object split given) = unwrapMessageFromEnvelope'),
     'ctx': ('ctx_case', ctx_term, [('mis', 'ctx_mismatches', 'm')], 400, 'message context: wrapped message gets the original context, unwrapped message the envelope message context'),
     'cc':  ('cc_case', cc_term, [('mis', 'cc_mismatches', 'm')], 250, 'Marshal with one of ProtoMarshaler / ProtobufMarshaler(fallback on/off), Unmarshal with another'),
+    'tg':  ('tg_case', tg_term, [('mis', 'tg_mismatches', 'm'), ('vio', 'tg_violations', 'v'), ('law', 'tg_law_failures', 'l')], 200,
+            'CQRS marshaler Unmarshal into a reused / pre-filled target, and on payloads that are not the output of Marshal'),
     'u8':  ('u8_case', u8_term, [('mis', 'u8_mismatches', 'm')], 2000, 'utf8_valid (Gallina) against utf8.Valid (Go): boundary sweep + mutated strings'),
 }
 
@@ -233,10 +242,11 @@ def signature(fam, c):
     if fam == 'cq':
         return 'C16/cqrs/%s/%s' % (['json', 'proto', 'gogo'][c['kind']], c.get('desc', '?').split(':')[0])
     return 'C16/' + {'st': 'copy-set-script', 'env': 'envelope-roundtrip', 'unw': 'unwrap-accepts-empty-destination', 'pub': 'publisher-roundtrip',
-                     'rp': 'reply-roundtrip', 'jw': 'envelope-roundtrip'}.get(fam, fam)
+                     'rp': 'reply-roundtrip', 'jw': 'envelope-roundtrip', 'tg': 'cqrs-unmarshal-into-used-target'}.get(fam, fam)
 
 WHAT = {
     'jw': 'wrap/unwrap of the forwarder envelope is not the identity (envelope-text family) / empty destination accepted',
+    'tg': 'CQRS marshaler: after Unmarshal(Marshal(v)) into a target that held something before, the target does not hold v (although the library call, applied to a copy of that target, yields v)',
     'eq': 'Message.Equals disagrees with "same UUID, same payload bytes, same metadata key/value set"',
     'st': 'object script rejected by trace_ok (Copy must equal the original, be unsettled and own its metadata; Set changes one map only)',
     'env': 'wrap/unwrap of the forwarder envelope is not the identity on (destination, UUID, payload, metadata) / empty destination accepted',
@@ -262,6 +272,15 @@ def run_once(ctx, res, seed, scale, big, tag):
     data, _ = C.run_harness(ctx['binary'], ['c16', '-seed', str(seed), '-scale', str(scale), '-big', str(big)], pid, 'c16_%s.json' % tag)
     for k, n in data.get('dist', {}).items():
         res.count(k, n)
+    # reuse-target scripts: one case per Unmarshal step
+    flat = []
+    for sc in data.get('tg') or []:
+        for i, st in enumerate(sc['steps']):
+            if st.get('marshal_err'):
+                continue
+            flat.append(dict(st, kind=sc['kind'], nofb=sc['nofb'], ismsg=sc['ismsg'], isgogo=sc['isgogo'], desc=sc['desc'], step=i,
+                             script=[dict(what=x['what'], v=x['v']) for x in sc['steps'][:i + 1]]))
+    data['tg'] = flat
     alljobs = []
     for fam in FAMILIES:
         cases = data.get(fam) or []
@@ -312,6 +331,8 @@ def run_once(ctx, res, seed, scale, big, tag):
                 if c.get('msg'): res.nontrivial.add(('cq', c['kind'], c['nofb'], c['ts'], c['v'], c['gen'], c['cfguuid']))
             elif fam == 'rp':
                 if c.get('msg'): res.nontrivial.add(('rp', c['type'], c['res'], c['errtext']))
+            elif fam == 'tg':
+                if c['step'] > 0 or c['prev'] != c.get('vfresh', {}).get('b'): res.nontrivial.add(('tg', c['kind'], c['prev'], c['payload']))
             elif fam in ('unw', 'ru', 'nfm', 'u8', 'js', 'b64', 'jw', 'ctx', 'cc'):
                 res.nontrivial.add((fam, json.dumps(c, sort_keys=True)))
     if not res.samples:
